@@ -7,9 +7,11 @@
 (*                                                                         *)
 (* The recorded events are projected (harness/design_trace.py) onto        *)
 (*   stimuli       send n | eof | reset | fail | term | tick                *)
-(*                 recv r m | sstart r | sbody r final | exit r             *)
+(*                 sstart r | sbody r final | exit r                        *)
 (*                 - each is the H1Conn action of the same name             *)
-(*   observations  start r | whead r status | wchunk r | wend r | werr |    *)
+(*   observations  rcall r / recv r m (receive() called / what it returned:  *)
+(*                 the dequeue itself is a silent AppRecv step between them)  *)
+(*                 start r | whead r status | wchunk r | wend r | werr |    *)
 (*                 log r |                                                  *)
 (*                 tclose | hdone | ret r | q                               *)
 (*                 - they do not move the design; they are compared with    *)
@@ -35,7 +37,8 @@ Evs(t) == Traces[t].evs
 PlanOf(t) == [r \in Reqs |-> [body |-> Traces[t].plan[r].body, close |-> Traces[t].plan[r].close]]
 
 NoObs == [head |-> 0, chunks |-> 0, ends |-> 0, acc |-> 0]
-ObInit == [w |-> [r \in Reqs |-> NoObs], err |-> 0, closed |-> FALSE, hdone |-> FALSE, started |-> {}]
+ObInit == [w |-> [r \in Reqs |-> NoObs], err |-> 0, closed |-> FALSE, hdone |-> FALSE, started |-> {},
+           want |-> {}, got |-> [r \in Reqs |-> <<>>]]
 
 TraceInit ==
     /\ Init
@@ -53,6 +56,9 @@ Agree ==
     /\ (creset \/ tfail # "no" \/ (ob.closed <=> tr = "closed"))
     /\ ob.hdone <=> hdone
     /\ ob.started = {r \in Reqs : appst[r] # "none"}
+    \* every receive that could return has returned, and its record has been seen
+    /\ \A r \in ob.want : q[r] = <<>>
+    /\ \A r \in Reqs : ob.got[r] = <<>>
 
 Stimulus(e) ==
     /\ UNCHANGED ob
@@ -62,7 +68,6 @@ Stimulus(e) ==
          [] e.k = "fail"   -> TransportFail
          [] e.k = "term"   -> Terminate
          [] e.k = "tick"   -> Tick
-         [] e.k = "recv"   -> AppRecv(e.r) /\ Head(q[e.r]) = e.m
          [] e.k = "sstart" -> AppSendStart(e.r)
          [] e.k = "sbody"  -> AppSendBody(e.r, e.final)
          [] e.k = "exit"   -> AppExit(e.r)
@@ -79,21 +84,29 @@ Observation(e) ==
          [] e.k = "hdone"  -> ob' = [ob EXCEPT !.hdone = TRUE] /\ hdone
          \* the application task begins to run: some time after the reader's Request step spawned it
          [] e.k = "start"  -> ob' = [ob EXCEPT !.started = @ \cup {e.r}] /\ e.r \notin ob.started /\ appst[e.r] # "none"
+         \* receive(): the call is logged, the dequeue (AppRecv, a silent step) happens when a message is
+         \* there, the record of what was received is logged when the application task runs again - by then
+         \* other tasks may already have reacted to the freed queue slot
+         [] e.k = "rcall"  -> ob' = [ob EXCEPT !.want = @ \cup {e.r}]
+         [] e.k = "recv"   -> /\ ob.got[e.r] # <<>> /\ Head(ob.got[e.r]) = e.m
+                              /\ ob' = [ob EXCEPT !.got[e.r] = Tail(@)]
          [] e.k = "ret"    -> UNCHANGED ob /\ todo[AppTask(e.r)] = <<>>
          [] e.k = "q"      -> UNCHANGED ob /\ ~ENABLED ServerNext /\ Agree
 
-IsStimulus(e) == e.k \in {"send", "eof", "reset", "fail", "term", "tick", "recv", "sstart", "sbody", "exit"}
+IsStimulus(e) == e.k \in {"send", "eof", "reset", "fail", "term", "tick", "sstart", "sbody", "exit"}
 
 Logged ==
     /\ l <= Len(Evs(tid))
     /\ LET e == Evs(tid)[l] IN IF IsStimulus(e) THEN Stimulus(e) ELSE Observation(e)
     /\ l' = l + 1 /\ UNCHANGED tid
 
-(* an unlogged server step *)
+(* an unlogged server step, or the dequeue of a receive() that has been called *)
 Silent ==
     /\ l <= Len(Evs(tid))
-    /\ (ServerNext \/ TransportDeath)
-    /\ UNCHANGED <<tid, l, ob>>
+    /\ \/ (ServerNext \/ TransportDeath) /\ UNCHANGED ob
+       \/ \E k \in ob.want : /\ AppRecv(k)
+                              /\ ob' = [ob EXCEPT !.want = @ \ {k}, !.got[k] = Append(@, Head(q[k]))]
+    /\ UNCHANGED <<tid, l>>
 
 TraceNext == Logged \/ Silent
 TraceSpec == TraceInit /\ [][TraceNext]_tvars
